@@ -28,7 +28,15 @@ ArgDom(name) ==
   CASE name = "u3" -> << <<0>>, <<1>>, <<2>> >>
     [] name = "u4" -> << <<0>>, <<1>>, <<2>>, <<3>> >>
     [] name = "u6" -> << <<>>, <<1>>, <<2>>, <<0, 5>>, W64, <<1, 0, 0, 0, 0, 0, 0, 0, 0>> >>
+    [] name = "w8" -> << <<0>>, <<1>>, <<2>>, <<255, 255, 255, 255>>, <<1, 0, 0, 0, 0>>, <<1, 0, 0, 0, 1>>,
+                         <<128, 0, 0, 0, 0, 0, 0, 0>>, W64 >>
     [] name = "w5" -> << <<0>>, <<1>>, <<1, 0, 0, 0, 0>>, <<128, 0, 0, 0, 0, 0, 0, 0>>, W64 >>
+    [] name = "w4" -> << <<0>>, <<1>>, <<1, 0, 0, 0, 0>>, W64 >>
+    [] name = "w3" -> << <<1>>, <<1, 0, 0, 0, 1>>, W64 >>
+    [] name = "w2" -> << <<1>>, <<2, 0, 0, 0, 0>> >>
+    [] name = "x16" -> [j \in 1..16 |-> IF j = 1 THEN <<>> ELSE <<j - 1>>]
+    [] name = "x8" -> << <<>>, <<1>>, <<2>>, <<3>>, <<7>>, <<8>>, <<14>>, <<15>> >>
+    [] name = "x4" -> << <<>>, <<1>>, <<3>>, <<15>> >>
     [] name = "b3" -> << <<>>, <<97>>, <<97, 98, 99>> >>
     [] name = "b4" -> << <<>>, <<0>>, <<97, 98>>, <<255, 1, 2, 3, 4, 5, 6, 7, 8>> >>
     [] name = "k2" -> << <<107>>, <<113>> >>
@@ -99,7 +107,9 @@ Verdict ==
        \o "|" \o ToString(Len(m.fr)) \o "|" \o ToString(Len(m.exits))
 
 Init == /\ tid \in 1..Len(Batch)
-        /\ cid \in 0..(NCtx(Batch[tid].cx) - 1)
+        /\ cid \in (IF "cids" \in DOMAIN Batch[tid] /\ Batch[tid].cids # <<>>
+                    THEN {Batch[tid].cids[j] : j \in 1..Len(Batch[tid].cids)}
+                    ELSE 0..(NCtx(Batch[tid].cx) - 1))
         /\ k = 0 /\ phase = "start" /\ m = <<>> /\ want = <<>> /\ ctx = <<>>
 
 Start == /\ phase = "start"
